@@ -429,7 +429,7 @@ class FlowG:
             k = rng.random()
             loc = [x for x in env if x not in ro]
             if depth > 0 and rng.random() < 0.07:
-                ls, env = self.while_stmt(env, ctx, ind, depth)
+                ls, env = self.while_stmt(env, ctx, ind, depth, in_loop)
                 lines += ls
                 continue
             if rng.random() < 0.035:
@@ -464,7 +464,7 @@ class FlowG:
                 ls, env = self.if_stmt(env, ctx, ind, depth, in_loop)
                 lines += ls
             elif k < 0.86 and depth > 0:
-                ls, env = self.for_stmt(env, ctx, ind, depth)
+                ls, env = self.for_stmt(env, ctx, ind, depth, in_loop)
                 lines += ls
             elif k < 0.94 and depth > 0 and ctx['params']:
                 ls, env = self.try_stmt(env, ctx, ind, depth, in_loop)
@@ -487,6 +487,18 @@ class FlowG:
         rng = self.rng
         kw = rng.choice(['continue', 'break', 'continue', 'break'])
         return ['%sif %s:' % (ind, self.cond(ctx['params'], ctx['tuples'])), '%s    %s' % (ind, kw)]
+
+    def loop_tail(self, env, ctx, ind, depth):
+        """the end of a loop body: sometimes one more nested loop, sometimes a jump behind everything else"""
+        rng = self.rng
+        lines = []
+        if depth - 1 > 0 and rng.random() < 0.3:
+            mk = self.while_stmt if rng.random() < 0.3 else self.for_stmt
+            ls, _ = mk(env, ctx, ind, depth - 1, True)
+            lines += ls
+        if rng.random() < 0.4:
+            lines += self.jump(ctx, ind)
+        return lines
 
     def scope_stmt(self, env, ctx, ind, depth):
         """a statement that opens a new scope: a lambda that is called at once, a local def (with a loop and a
@@ -514,7 +526,7 @@ class FlowG:
                  '%s%s = %s.kk + %s' % (ind, v, h, self._par(self.expr(env, 1)))]
         return lines, env + [v]
 
-    def while_stmt(self, env, ctx, ind, depth):
+    def while_stmt(self, env, ctx, ind, depth, in_loop=False):
         """`w = 0` / `while w < N:` / `w = w + 1` first in the body (the counter is never rebound elsewhere, a
         `continue` cannot skip the increment), body with jumps, optional else"""
         rng = self.rng
@@ -535,11 +547,13 @@ class FlowG:
         lines.append('%s%s = %s + %s' % (sub, acc, acc, self._par(self.expr(body_env, 1))))
         ls, _ = self.block(body_env, inner, sub, depth - 1, rng.randint(1, 3), True)
         lines += ls
-        if rng.random() < 0.3:
-            lines += self.jump(ctx, sub)
-        if rng.random() < 0.2:
+        lines += self.loop_tail(body_env, inner, sub, depth)
+        if rng.random() < (0.35 if in_loop else 0.2):
             lines.append('%selse:' % ind)
             lines.append('%s    %s = %s' % (ind, rng.choice(loc), self.expr(env, 1)))
+            if in_loop and rng.random() < 0.6:
+                # the else clause of a loop is not part of that loop: a jump here belongs to the enclosing one
+                lines += self.jump(ctx, ind + '    ')
         return lines, env + [w]
 
     def mention(self, env, v, depth=1):
@@ -614,7 +628,7 @@ class FlowG:
             after = after + [v]
         return lines, after
 
-    def for_stmt(self, env, ctx, ind, depth):
+    def for_stmt(self, env, ctx, ind, depth, in_loop=False):
         rng = self.rng
         lines = []
         self.loopvars += 1
@@ -656,13 +670,14 @@ class FlowG:
             body.append('%s%s = %s * 2 %% 1000' % (sub, acc, t))
         ls, _ = self.block(body_env, ctx, sub, depth - 1, rng.randint(0 if body else 1, 3), True)
         body += ls
-        if rng.random() < 0.3:
-            # a jump behind everything else of the body (behind a nested loop, when there is one)
-            body += self.jump(ctx, sub)
+        body += self.loop_tail(body_env, ctx, sub, depth)
         lines += body
-        if rng.random() < 0.15:
+        if rng.random() < (0.35 if in_loop else 0.15):
             lines.append('%selse:' % ind)
             lines.append('%s    %s = %s' % (ind, rng.choice(loc), self.expr(env, 1)))
+            if in_loop and rng.random() < 0.6:
+                # the else clause of a loop is not part of that loop: a jump here belongs to the enclosing one
+                lines += self.jump(ctx, ind + '    ')
         after = list(env)
         if pre or not maybe_empty:
             if rng.random() < 0.6:
@@ -678,6 +693,8 @@ class FlowG:
         lines.append('%stry:' % ind)
         pre, inner = self.block(env, ctx, sub, 0, rng.randint(0, 1), in_loop) if env else ([], env)
         lines += pre
+        if in_loop and rng.random() < 0.25:
+            lines += self.jump(ctx, sub)
         lines.append('%s%s = %s // %s' % (sub, v, self._par(self.expr(inner, 1)), p))
         if rng.random() < 0.4:
             # after the raising point only names that are bound in front of the statement are rebound
@@ -686,6 +703,8 @@ class FlowG:
         lines.append('%sexcept ZeroDivisionError:' % ind)
         hb, _ = self.block(env, ctx, sub, 0, rng.randint(0, 1), in_loop) if env else ([], env)
         lines += hb
+        if in_loop and rng.random() < 0.15:
+            lines += self.jump(ctx, sub)
         lines.append('%s%s = %s' % (sub, v, self.expr(env, 1)))
         r = rng.random()
         if r < 0.2:
